@@ -47,7 +47,7 @@ def make_backoff(name):
     return backoff
 
 
-def outcome_menu(n, per_recipient=True, sequences=False, boom=True, reply_ok=True):
+def outcome_menu(n, per_recipient=True, sequences=False, boom=True, reply_ok=True, reversed_maps=False):
     """Ordered simplest-first list of attempt outcomes over n current recipients."""
     m = ['ok']
     if reply_ok:
@@ -61,6 +61,11 @@ def outcome_menu(n, per_recipient=True, sequences=False, boom=True, reply_ok=Tru
         if sequences:
             for assign in itertools.product('otp', repeat=n):
                 m.append('seq:' + ''.join(assign))
+        if reversed_maps and n >= 2:
+            # the same mappings, built in reverse recipient order (a dict's order is not part of the contract)
+            for assign in itertools.product('otp', repeat=n):
+                if len(set(assign)) > 1:
+                    m.append('rmap:' + ''.join(assign))
     return m
 
 
@@ -188,6 +193,7 @@ class QueueWorld(object):
         self.harness_wait = cfg.get('harness_wait', False)
         self.waiters = []
         self.transit = {}
+        self.index_model_differs = False
         self.flushed = set()           # ids flushed since their last set_timestamp
         self.last_incr = {}
         self.envs = []                 # keep envelope objects alive (id() stability)
@@ -256,7 +262,11 @@ class QueueWorld(object):
         self.ev('attempt-start', qid, tuple(rcpts), attempts)
         if led is not None:
             led['attempts'] += 1
+            model = self.index_model(qid, led)
             settled = set(led['delivered']) | set(led['failed'])
+            if [r for r in rcpts if r in settled] or [r for r in led['outstanding'] if r not in rcpts]:
+                if model is None or list(model) != list(rcpts):
+                    self.index_model_differs = True
             again = [r for r in rcpts if r in settled]
             if again:
                 self.flag('settled-recipient-attempted-again', 'attempt #%d of %s includes settled %r (attempt recipients %r)'
@@ -287,6 +297,24 @@ class QueueWorld(object):
             self.inflight[qid] -= 1
             rec['end'] = self.world.now
             self.ev('attempt-end', qid, rec['outcome'])
+
+    def index_model(self, qid, led):
+        """What KF-C03-1 predicts get() to return: the delivered indexes of every marking round, each relative to
+        the recipient list of its own round, concatenated and applied to the ORIGINAL list in one reverse-sorted
+        pass (QueueStorage._remove_delivered_rcpts).  Only meaningful for disk/redis/cloud."""
+        if self.cfg['backend'] == 'dict':
+            return None
+        flat = []
+        for e in self.events:
+            if len(e) >= 5 and e[1] == 'store' and e[2] == 'set_recipients_delivered' and e[3] == qid:
+                flat += list(e[4])
+        rc = list(led['original'])
+        try:
+            for index in sorted(flat, reverse=True):
+                del rc[index]
+        except IndexError:
+            return None
+        return rc
 
     def _settle(self, led, rcpt, how, reply=None):
         if led is None:
@@ -345,6 +373,8 @@ class QueueWorld(object):
             led['last_temp'] = lt
         if kind == 'map':
             return dict(zip(rcpts, vals))
+        if kind == 'rmap':
+            return dict(reversed(list(zip(rcpts, vals))))
         return list(vals)
 
     # ---- build & run
